@@ -149,10 +149,10 @@ var harProp = vh.Define("C20", "har", func(c HarCase, r *vh.R) {
 		status int
 		body   []byte
 	}
-	firstGET := map[string]first{}  // URL -> first GET entry with a status in 100..999
-	variants := map[string]bool{}   // URL -> some entry has a Variants header
-	getURL := map[string]bool{}     // URL appears in a usable GET entry
-	otherOnly := map[string]bool{}  // URL appears only in dropped entries
+	firstGET := map[string]first{} // URL -> first GET entry with a status in 100..999
+	variants := map[string]bool{}  // URL -> some entry has a Variants header
+	getURL := map[string]bool{}    // URL appears in a usable GET entry
+	otherOnly := map[string]bool{} // URL appears only in dropped entries
 	cls := map[string]bool{}
 	defer func() {
 		for k := range cls {
